@@ -141,7 +141,7 @@ CHECKS = {
     "C19": {
         "level": "exploration",
         "module": "harness_v2",
-        "rule": "normal-form histories (per version at most one Set or Remove per key; key-sorted in two thirds of the cases, arbitrary order otherwise; empty versions, shrink-to-empty, rewrites of identical values, removals of absent keys, bursts of 8-25 writes) of 1-10 versions x TreeOptions {CheckpointInterval 1,2,3,5,7,1000; CheckpointMemory off/1/300/3000 B (extra checkpoints where the interval would not place one); HeightFilter 0,1; EvictionDepth -1,0,1,2,8} x SqliteDbOptions {ShardTrees on/off}, leaf values stored, sqlite files on tmpfs; keys incl. 127/128/129/300-byte ones, values incl. 127/128/200/5000 B; in a third of the cases 1-2 commits are preceded by SetShouldCheckpoint() (a checkpoint where the interval would not place one). Three-way oracle at every commit: v2 SaveVersion hash == v1 MutableTree (MemDB) hash == reference; before and after each commit Get / Has (present and absent keys) / Size / Height and forward, inclusive and reverse iterators with bounds drawn from {nil, stored keys, extensions, prefixes, random} == versioned-map model (the iterator queries of a version run on the uncommitted working state as well as on the committed one); a third of the cases are QUIET: no reads between the commits (hashes only), contents and queries once after the last commit - a full read after every commit pulls every node back into memory and hides lazy loads of evicted nodes. non-trivial = >=1 checkpoint and >=1 non-checkpoint commit, >=1 removal and >=1 rotation in the reference",
+        "rule": "normal-form histories (per version at most one Set or Remove per key; key-sorted in two thirds of the cases, arbitrary order otherwise; empty versions, shrink-to-empty, rewrites of identical values, removals of absent keys, bursts of 8-25 writes) of 1-10 versions x TreeOptions {CheckpointInterval 1,2,3,5,7,1000; CheckpointMemory off/1/300/3000 B (extra checkpoints where the interval would not place one); HeightFilter 0,1; EvictionDepth -1,0,1,2,8} x SqliteDbOptions {ShardTrees on/off}, leaf values stored, sqlite files on tmpfs; keys incl. 127/128/129/300-byte ones, values incl. 127/128/200/5000 B; in a third of the cases 1-2 commits are preceded by SetShouldCheckpoint() (a checkpoint where the interval would not place one). Three-way oracle at every commit: v2 SaveVersion hash == v1 MutableTree (MemDB) hash == reference; before and after each commit Get / Has (present and absent keys) / Size / Height and forward, inclusive and reverse iterators with bounds drawn from {nil, stored keys, extensions, prefixes, random} == versioned-map model (the iterator queries of a version run on the uncommitted working state as well as on the committed one); the range queries of a version run BEFORE its lookups (which would pull every evicted node back into memory); a third of the cases are QUIET: no reads between the commits (hashes only), contents and queries once after the last commit - a full read after every commit pulls every node back into memory and hides lazy loads of evicted nodes. non-trivial = >=1 checkpoint and >=1 non-checkpoint commit, >=1 removal and >=1 rotation in the reference",
         "assumptions": _ASSUME + ["the return values of v2 Set/Remove are not asserted (the property does not state them)", "iterator bounds are nil or non-empty"],
         "quick": [{"test": "TestC19", "checks": 120, "shards": 8, "module": "harness_v2"}],
         "thorough": [{"test": "TestC19", "checks": 4000, "shards": 16, "module": "harness_v2"}],
